@@ -7,7 +7,9 @@
        which are leaf classes (nobody inherits from them);
      - __exit__ does not raise, does not swallow exceptions, and its newest write to every slot
        touched by __enter__ or __exit__ is exactly the value that slot showed when the block was
-       entered ([VSym (XCell false k a)]).
+       entered ([VSym (XCell false k a)]); the only exemption are the slots listed in [doc_caches]
+       (deterministic_probes.probe_vectors: a cache of random vectors that the class documents as
+       being dropped whenever the flag is set; it is not a setting and has no query method).
    Soundness of the checker (for ALL stores and arguments) is Proofs/C20_scoped.v.  No proofs here. *)
 From Coq Require Import List String ZArith Bool.
 From GPV Require Import Models.C20_ir.
@@ -26,6 +28,7 @@ Fixpoint explore {A} (n : nat) (f : list fact -> res A) (chk : list fact -> res 
 Section Check.
 Variable T : table.
 Variable comp : string -> list string.       (* documented composites: classes a block of c may also set *)
+Variable cache : string -> string -> bool.   (* documented caches: slots that are reset, not restored *)
 
 Definition leaf (k : string) : bool :=
   forallb (fun e => String.eqb (c_name e) k || negb (mem_str k (chain T (c_name e)))) T.
@@ -38,7 +41,7 @@ Definition is_entry_value (k a : string) (v : option sval) : bool :=
   | _ => false
   end.
 Definition restores (WA WB : writes) : bool :=
-  forallb (fun w => match w with (k, a, _) => is_entry_value k a (find_w WB k a) end) (WA ++ WB).
+  forallb (fun w => match w with (k, a, _) => cache k a || is_entry_value k a (find_w WB k a) end) (WA ++ WB).
 Definition isnil {A} (l : list A) : bool := match l with [] => true | _ => false end.
 
 Definition chkB (c : string) (WA : writes) (_ : list fact) (r : res blockB) : bool :=
@@ -99,6 +102,9 @@ Definition doc_composites (c : string) : list string :=
   else if String.eqb c "lo.linalg_dtypes" then ["lo._linalg_dtype_symeig"; "lo._linalg_dtype_cholesky"]
   else [].
 
+Definition doc_caches (c a : string) : bool :=
+  String.eqb c "lo.deterministic_probes" && String.eqb a "probe_vectors".
+
 (* documented defaults: (class, query method, arguments, documented value), from the "(Default: ..)"
    lines of the docstrings and, where the docstring is silent, the constructor signature *)
 Definition f32 := KDtype "float32". Definition f64 := KDtype "float64". Definition f16 := KDtype "float16".
@@ -135,3 +141,18 @@ Definition doc_defaults : list (string * string * list const * const) :=
   dval "gp.observation_nan_policy" (KStr "ignore") ++ dflag "gp.use_keops" true ++
   (* gpytorch.beta_features *)
   dnum "bf.checkpoint_kernel" 0 1 ++ dflag "bf.default_preconditioner" false.
+
+(* classes used by the with-blocks of a program *)
+Fixpoint prog_classes (p : prog) : list string :=
+  match p with
+  | PSeq a b => prog_classes a ++ prog_classes b
+  | PWith c _ body => c :: prog_classes body
+  | _ => []
+  end.
+
+(* the classes a user can put in a with-block: context managers nobody inherits from *)
+Definition usable (T : table) : list string := filter (fun c => is_cm T c && leaf T c) (map c_name T).
+Definition has_prefix (pre s : string) : bool := String.eqb (substring 0 (String.length pre) s) pre.
+(* installed linear_operator classes (outside the repository) vs classes of gpytorch itself *)
+Definition external (c : string) : bool := has_prefix "lo." c.
+Definition documented_queries : list (string * string * list const) := map fst doc_defaults.
